@@ -356,7 +356,7 @@ func (e *bitsEnv) eval1(v ssa.Value) (bvec, bool) {
 			}
 			sub.known[prm] = a
 		}
-		r, ok := sub.eval(ret.Results[0])
+		r, ok := sub.eval(returnedValues(ret)[0])
 		if !ok {
 			e.why = "in helper " + f.Name() + ": " + sub.why
 		}
